@@ -100,6 +100,11 @@ def cmd_check(pid, tier, only=None, selftest=False):
         for v in rep['violations']:
             if selftest and v['label'] == 'SELFTEST-unreachable-end':
                 continue
+            if not v['reproduced'] and fam.nonrepro == 'inconclusive':
+                inconclusive.append('%s: counterexample for %s exists only under the symbolic '
+                                    'stub, the replay on real objects passes (inputs %s)' % (
+                                        fam.name, v['label'], v['inputs']))
+                continue
             if not v['reproduced']:
                 harness_errors.append(
                     '%s: counterexample for %s did not reproduce concretely (inputs %s, '
